@@ -2,6 +2,7 @@
 C14 — results serialise to JSON and the CLI prints exactly one JSON document.
 -/
 import ReplayModel.JsonOut
+import ReplayModel.Controller
 import ReplayModel.World
 import ReplayModel.Play
 import ReplayModel.Generated.Facts
@@ -149,5 +150,91 @@ theorem onSetConsumable_unsubscribed_fact : Generated.subscribedCallbacks.contai
 
 /-- … and the parser never asks the reader for its debugging dump -/
 theorem parser_no_dump_fact : Generated.parserDumpBinary = false := by decide
+
+/-! ### the summary of the controller fold is serialisable -/
+
+/-- a dict with integer keys -/
+def intDict {α : Type} (f : α → PyTerm) (d : List (Int × α)) : PyTerm :=
+  .dict (d.map fun kv => (.int kv.1, f kv.2))
+
+/-- a dict with string keys -/
+def strDict {α : Type} (f : α → PyTerm) (d : List (String × α)) : PyTerm :=
+  .dict (d.map fun kv => (.str kv.1, f kv.2))
+
+def optTerm {α : Type} (f : α → PyTerm) : Option α → PyTerm
+  | none => .none
+  | some a => f a
+
+/-- the summary of the modelled fold as the Python structure `get_info` returns (the fields the
+fold produces; same names as in the controllers) -/
+def summaryTerm (s : Summary) : PyTerm :=
+  .dict [
+    (.str "achievements", intDict (intDict PyTerm.int) s.achievements),
+    (.str "ribbons", intDict (intDict PyTerm.int) s.ribbons),
+    (.str "players", intDict (strDict PyTerm.str) s.players),
+    (.str "battle_result", optTerm (fun r => .dict [(.str "winner_team_id", .int r.1), (.str "victory_type", .int r.2)]) s.battleResult),
+    (.str "damage_map", intDict PyTerm.str s.damage),
+    (.str "shots_damage_map", intDict (intDict PyTerm.int) s.shots),
+    (.str "death_map", .list (s.deaths.map fun d => .tuple [.int d.1, .int d.2.1, .int d.2.2])),
+    (.str "map", optTerm (fun b => .bytes (String.ofList (b.map (fun c => Char.ofNat c.toNat)))) s.map),
+    (.str "player_id", optTerm PyTerm.int s.playerId),
+    (.str "arena_id", optTerm PyTerm.int s.arenaId),
+    (.str "planes", intDict PyTerm.int s.planes)]
+
+theorem keysOK_intDict {α : Type} (f : α → PyTerm) (hf : ∀ a, keysOK (f a) = true) (d : List (Int × α)) :
+    keysOK (intDict f d) = true := by
+  unfold intDict
+  simp only [keysOK]
+  induction d with
+  | nil => rfl
+  | cons kv rest ih => simp [keysOKKVs, PyTerm.keyOK, hf, ih]
+
+theorem keysOK_strDict {α : Type} (f : α → PyTerm) (hf : ∀ a, keysOK (f a) = true) (d : List (String × α)) :
+    keysOK (strDict f d) = true := by
+  unfold strDict
+  simp only [keysOK]
+  induction d with
+  | nil => rfl
+  | cons kv rest ih => simp [keysOKKVs, PyTerm.keyOK, hf, ih]
+
+theorem keysOK_optTerm {α : Type} (f : α → PyTerm) (hf : ∀ a, keysOK (f a) = true) (o : Option α) :
+    keysOK (optTerm f o) = true := by
+  cases o <;> simp [optTerm, keysOK, hf]
+
+theorem keysOK_deaths (ds : List (Int × Int × Int)) :
+    keysOKList (ds.map fun d => PyTerm.tuple [.int d.1, .int d.2.1, .int d.2.2]) = true := by
+  induction ds with
+  | nil => rfl
+  | cons d rest ih => simp [keysOKList, keysOK, ih]
+
+/-- **Every summary the fold can produce is serialisable** — for every sequence of events (any
+ids, counts, names): all dict keys anywhere in the structure are ints or strings, so
+`json.dumps(..., cls=DefaultEncoder)` cannot raise on it (`encodable_of_keysOK`). What would
+break it is exactly `tuple_key_counterexample`: a compound key. -/
+theorem summary_keysOK (s : Summary) : keysOK (summaryTerm s) = true := by
+  have hi : ∀ i : Int, keysOK (PyTerm.int i) = true := fun _ => rfl
+  have hs : ∀ x : String, keysOK (PyTerm.str x) = true := fun _ => rfl
+  unfold summaryTerm
+  simp only [keysOK, keysOKKVs, PyTerm.keyOK, Bool.true_and, Bool.and_true, Bool.and_eq_true]
+  refine ⟨?_, ?_, ?_, ?_, ?_, ?_, ?_, ?_, ?_, ?_, ?_⟩
+  · exact keysOK_intDict _ (fun d => keysOK_intDict _ hi d) _
+  · exact keysOK_intDict _ (fun d => keysOK_intDict _ hi d) _
+  · exact keysOK_intDict _ (fun d => keysOK_strDict _ hs d) _
+  · exact keysOK_optTerm _ (fun r => by simp [keysOK, keysOKKVs, PyTerm.keyOK]) _
+  · exact keysOK_intDict _ hs _
+  · exact keysOK_intDict _ (fun d => keysOK_intDict _ hi d) _
+  · exact keysOK_deaths _
+  · exact keysOK_optTerm _ (fun _ => rfl) _
+  · exact keysOK_optTerm _ hi _
+  · exact keysOK_optTerm _ hi _
+  · exact keysOK_intDict _ hi _
+
+theorem summary_encodable (es : List Event) : encodable (summaryTerm (summarize es)) = true :=
+  encodable_of_keysOK _ (summary_keysOK _)
+
+/-- non-trivial instance: two deaths, an achievement, a roster row -/
+example : encodable (summaryTerm (summarize [.death 1 2 3, .death 2 2 4, .achievement 7 9, .roster 5 [("name", "x")]])) = true :=
+  summary_encodable _
+
 
 end ReplayModel.C14
